@@ -5,9 +5,9 @@ import (
 	"encoding/base64"
 	"encoding/hex"
 	"encoding/json"
-	"os"
 	"fmt"
 	"math/rand"
+	"os"
 	"runtime"
 	"time"
 
@@ -67,14 +67,25 @@ func parseEvent(w *ev.Writer, idx int, class string, b []byte) {
 						post = "panic: " + fmt.Sprint(r)
 					}
 				}()
+				// one caching hasher for the whole bag, asked twice per root (a request after a FAILED one must fail again, not
+				// crash on what the failed one left in the cache), then used by the serialiser
+				hasher := boc.NewHasher()
 				for _, r := range roots {
 					h, e := r.HashString()
 					if e != nil {
 						post = "err"
 					}
 					hs = append(hs, h)
+					h1, e1 := hasher.HashString(r)
+					h2, e2 := hasher.HashString(r)
+					if (e1 == nil) != (e == nil) || (e2 == nil) != (e == nil) || (e == nil && (h1 != h || h2 != h)) {
+						post = "panic: the caching hasher disagrees with Hash(): " + fmt.Sprint(h, e, h1, e1, h2, e2)
+					}
 					_ = r.ToString()
 					if _, e := r.ToBoc(); e != nil {
+						post = "err"
+					}
+					if _, e3 := r.ToBocCustomWithHasher(hasher, false, false, false, 0); (e3 == nil) != (e == nil) && post == "ok" {
 						post = "err"
 					}
 				}
@@ -228,27 +239,27 @@ func adversarial() [][]byte {
 	h := func(s string) []byte { b, _ := hex.DecodeString(s); return b }
 	out := [][]byte{
 		h("b5ee9c72"), h("b5ee9c7200"), h("b5ee9c720005"), h("b5ee9c7201"), h("b5ee9c720101"),
-		h("b5ee9c7201010101000300010000"),         // one cell referencing itself
-		h("b5ee9c72010102010005000101010000"),     // backward/forward mix
-		h("b5ee9c7201010105000200010000"),         // root index 5 of 1 cell
-		h("b5ee9c720101010100020000ff"),           // ref width vs data
+		h("b5ee9c7201010101000300010000"),     // one cell referencing itself
+		h("b5ee9c72010102010005000101010000"), // backward/forward mix
+		h("b5ee9c7201010105000200010000"),     // root index 5 of 1 cell
+		h("b5ee9c720101010100020000ff"),       // ref width vs data
 		h("b5ee9c7204ffffffff00000001000000000100000000"),
-		h("b5ee9c7208ffffffffffffffff"),           // size 0 with bit 3 set
+		h("b5ee9c7208ffffffffffffffff"), // size 0 with bit 3 set
 		h("b5ee9c7207ffffffffffffff0000000000000100000000000000000000000000"),
 		h("b5ee9c720108ffffffffffffffffffffffffffff01000000"),
-		h("b5ee9c720101ffff00"),                   // 255 cells, 255 roots
-		h("b5ee9c72010101010002000800"),           // exotic cell without data
-		h("b5ee9c7201010101000400090101"),         // pruned branch too short for its mask
-		h("b5ee9c72010101010004002901e1"),         // pruned, mask 1, 1 byte
-		h("b5ee9c7201010101000300100000"),         // with-hashes flag, no room for hashes
-		h("b5ee9c7201010101000300070000"),         // 7 references
+		h("b5ee9c720101ffff00"),           // 255 cells, 255 roots
+		h("b5ee9c72010101010002000800"),   // exotic cell without data
+		h("b5ee9c7201010101000400090101"), // pruned branch too short for its mask
+		h("b5ee9c72010101010004002901e1"), // pruned, mask 1, 1 byte
+		h("b5ee9c7201010101000300100000"), // with-hashes flag, no room for hashes
+		h("b5ee9c7201010101000300070000"), // 7 references
 		h("68ff65f3010101000003000000"), h("acc3a72801010100000300000000000000"),
-		h("b5ee9c72c1010101000200000000000000"),   // crc flag, wrong crc
+		h("b5ee9c72c1010101000200000000000000"), // crc flag, wrong crc
 		h("b5ee9c7241010100020000004cacb9cd"),
-		h("b5ee9c72010100000000"),                 // no cells, no roots, no data: nothing to return
-		h("b5ee9c72010101000002" + "0000"),        // one cell, no root
-		h("b5ee9c7201010101000201"),               // d2 odd, no data
-		h("b5ee9c72010101010003000100"),           // odd d2 with zero byte: no completion tag
+		h("b5ee9c72010100000000"),          // no cells, no roots, no data: nothing to return
+		h("b5ee9c72010101000002" + "0000"), // one cell, no root
+		h("b5ee9c7201010101000201"),        // d2 odd, no data
+		h("b5ee9c72010101010003000100"),    // odd d2 with zero byte: no completion tag
 	}
 	return out
 }
@@ -302,6 +313,28 @@ func DriveC07(w *ev.Writer, o Opts, skip int, extra string) {
 	nown := 3
 	if o.thorough() {
 		nown = 12
+	}
+	// cells that are (nearly) full: 1015..1023 data bits, every one of them in one small tree (printing and the text form pad
+	// the bits to a nibble boundary inside the cell's capacity)
+	if o.Shard == 1%o.Shards {
+		full := &cells.Table{Roots: []int{0}}
+		full.Cells = append(full.Cells, cells.C{B: "1", R: []int{1, 2, 3}})
+		for i, n := range []int{1015, 1016, 1017, 1018, 1019, 1020, 1021, 1022, 1023} {
+			c := cells.C{B: cells.RandBitsN(rng, n), R: []int{}}
+			if i+1 <= 3 {
+				c.R = []int{4 + 2*i, 5 + 2*i}
+			}
+			full.Cells = append(full.Cells, c)
+		}
+		if roots, err := cells.Build(full, true); err == nil {
+			if b, err := roots[0].ToBoc(); err == nil {
+				i := next
+				next++
+				if i >= skip {
+					parseEvent(w, i, "valid", b)
+				}
+			}
+		}
 	}
 	for k := 0; k < nown; k++ {
 		t := cells.RandTable(rng, 1+rng.Intn(4), 40)
